@@ -10,9 +10,10 @@
        subscription and subscribes a NEW closing observable, made by the (g+1)-th call of the mapper;
      - an error of the source or of the current closing observable goes to window g and to the outer;
        the source's completion completes window g and the outer;
-     - a raising closing mapper ends the outer sequence with that error; for windows the window just
-       handed stays open and keeps receiving the source until the source terminates (the source
-       stays subscribed while that window has a subscriber); buffers are disposed as a whole.
+     - a raising closing mapper ends everything: the CURRENT window (window 0 at the first call,
+       inside subscribe(); the window just handed at a later call) gets the error, then the outer
+       sequence; every earlier window has completed, so the source is released and nothing that
+       comes later on any port is observed; buffers: the result's error, all disposed.
    Property-level readings follow. *)
 From RxVerif Require Import Base.Prelude Ops.Machine Ops.MachineFacts Ops.MultiWin Ops.MultiWinFacts
   Ops.Windows Ops.WindowCountFacts Ops.WinSim.
@@ -43,37 +44,43 @@ Notation tin := (Z * nat * ev A)%type.
 
 Definition out_ev (e : ev A) : ev B := match e with Err z => Err z | _ => Done end.
 
-(* [live] = the outer subscription is live (the closing mapper has not raised) *)
-Fixpoint ww_walk (live : bool) (g : nat) (pos : nat) (ins : list tin) : list (nat * obs A B) :=
+(* [g] = the current window (every earlier one has completed) *)
+Fixpoint ww_walk (g : nat) (pos : nat) (ins : list tin) : list (nat * obs A B) :=
   match ins with
   | [] => []
   | (_, k, e) :: rest =>
       if Nat.eqb k 0 then
         match e with
-        | Next x => (pos, OWin g (Next x)) :: ww_walk live g (S pos) rest
-        | _ => (pos, OWin g e)
-               :: (if live then [(pos, OEmit (out_ev e)); (pos, OUnsub 0%nat); (pos, OUnsub (S g))]
-                   else [(pos, OUnsub 0%nat)])
+        | Next x => (pos, OWin g (Next x)) :: ww_walk g (S pos) rest
+        | _ => [(pos, OWin g e); (pos, OEmit (out_ev e)); (pos, OUnsub 0%nat); (pos, OUnsub (S g))]
         end
-      else if live && Nat.eqb k (S g) then
+      else if Nat.eqb k (S g) then
         match e with
         | Err z => [(pos, OWin g (Err z)); (pos, OEmit (Err z)); (pos, OUnsub 0%nat); (pos, OUnsub (S g))]
         | _ =>
             [(pos, OWin g Done); (pos, OHand (S g) 0); (pos, OUnsub (S g))]
             ++ match mapper (S g) with
-               | Ok _ => (pos, OSub (S (S g))) :: ww_walk true (S g) (S pos) rest
-               | Raise z => (pos, OEmit (Err z)) :: ww_walk false (S g) (S pos) rest
+               | Ok _ => (pos, OSub (S (S g))) :: ww_walk (S g) (S pos) rest
+               | Raise z => [(pos, OWin (S g) (Err z)); (pos, OEmit (Err z)); (pos, OUnsub 0%nat)]
                end
         end
-      else ww_walk live g (S pos) rest
+      else ww_walk g (S pos) rest
   end.
 
+(* inside subscribe(): window 0 handed, the source subscribed, the first call of the mapper *)
 Definition ww_start : list (nat * obs A B) :=
   [(0%nat, OHand 0%nat 0); (0%nat, OSub 0%nat)]
-  ++ match mapper 0%nat with Ok _ => [(0%nat, OSub 1%nat)] | Raise z => [(0%nat, OEmit (Err z))] end.
+  ++ match mapper 0%nat with
+     | Ok _ => [(0%nat, OSub 1%nat)]
+     | Raise z => [(0%nat, OWin 0%nat (Err z)); (0%nat, OEmit (Err z)); (0%nat, OUnsub 0%nat)]
+     end.
 
-Definition ww_rstate (live : bool) (g : nat) : rstate A :=
-  RState (if live then [0%nat; S g] else [0%nat]) [] live [g] (map (fun k => (k, Done)) (seq 0 g)) (seq 0 (S g)) false.
+(* the whole trace: when the FIRST call raises nothing is listened to any more *)
+Definition ww_out (ins : list tin) : list (nat * obs A B) :=
+  ww_start ++ match mapper 0%nat with Ok _ => ww_walk 0 1 ins | Raise _ => [] end.
+
+Definition ww_rstate (g : nat) : rstate A :=
+  RState [0%nat; S g] [] true [g] (map (fun k => (k, Done)) (seq 0 g)) (seq 0 (S g)) false.
 
 Definition ww_ok (s : ww_st) (g : nat) : Prop := ww_cur s = g /\ ww_next s = S g /\ ww_calls s = S g.
 
@@ -95,10 +102,10 @@ Qed.
 Ltac rs := cbn [r_live r_timers r_outer r_wsubs r_wterm r_handed r_released fst snd app apply_cmds apply_cmd
                 finish is_terminal all_imm negb andb orb repeat filter].
 
-Lemma ww_run_from : forall (ins : list tin) live s g pos, ww_ok s g ->
-  fst (run_from all_imm M s (ww_rstate live g) pos (wports ins)) = ww_walk live g pos ins.
+Lemma ww_run_from : forall (ins : list tin) s g pos, ww_ok s g ->
+  fst (run_from all_imm M s (ww_rstate g) pos (wports ins)) = ww_walk g pos ins.
 Proof.
-  induction ins as [|[[t k] e] rest IH]; intros live s g pos Hs; [reflexivity|].
+  induction ins as [|[[t k] e] rest IH]; intros s g pos Hs; [reflexivity|].
   destruct s as [cur nx calls cl]. destruct Hs as (Hc & Hn & Hk). cbn [ww_cur ww_next ww_calls] in *. subst cur nx calls.
   rewrite wports_cons, run_from_cons. cbn [ww_walk].
   assert (Edead : forall s' (r : rstate A) o, r_live r = [] ->
@@ -107,23 +114,20 @@ Proof.
   destruct k as [|j].
   - (* the source *)
     cbn [Nat.eqb]. unfold rstep, ww_rstate.
-    assert (Em : mem 0 (if live then [0%nat; S g] else [0%nat]) = true) by (destruct live; reflexivity).
+    assert (Em : mem 0 [0%nat; S g] = true) by reflexivity.
     cbn [r_live]. rewrite Em. unfold deliver.
     destruct e as [x|z|]; cbn [x_step x_window_when ww_cur]; rs; rewrite wterm_fresh, count_one; rs.
-    + cbn [map app]. f_equal. apply (IH live _ g (S pos)). repeat split.
+    + cbn [map app]. f_equal. apply (IH _ g (S pos)). repeat split.
     + rewrite Nat.eqb_refl. cbn [negb]. unfold maybe_release, end_outer. rs.
-      destruct live; rs; unfold maybe_release; rs; rewrite ?sort_two, ?sort_one; rewrite ?mem_nil'; cbn [map app andb fst snd];
+      unfold maybe_release; rs; rewrite ?sort_two; rewrite ?mem_nil'; cbn [map app andb fst snd];
         rewrite Edead by reflexivity; reflexivity.
     + rewrite Nat.eqb_refl. cbn [negb]. unfold maybe_release, end_outer. rs.
-      destruct live; rs; unfold maybe_release; rs; rewrite ?sort_two, ?sort_one; rewrite ?mem_nil'; cbn [map app andb fst snd];
+      unfold maybe_release; rs; rewrite ?sort_two; rewrite ?mem_nil'; cbn [map app andb fst snd];
         rewrite Edead by reflexivity; reflexivity.
   - cbn [Nat.eqb]. unfold rstep, ww_rstate. cbn [r_live].
-    destruct live; cbn [andb].
-    2: { (* the outer has ended: no closing observable is subscribed *)
-         rewrite mem_cons, mem_nil'. cbn [Nat.eqb orb fst snd map app]. apply (IH false _ g (S pos)). repeat split. }
     rewrite !mem_cons, mem_nil'. cbn [Nat.eqb orb]. rewrite Bool.orb_false_r.
     destruct (Nat.eqb_spec j g) as [->|Hne].
-    2: { cbn [fst snd map app]. apply (IH true _ g (S pos)). repeat split. }
+    2: { cbn [fst snd map app]. apply (IH _ g (S pos)). repeat split. }
     unfold deliver.
     assert (Fire : forall e', (forall z, e' <> Err z) ->
        map (fun x => (pos, x)) (snd (let '(s', cs, f) := x_step M (WwSt g (S g) (S g) cl) t (ISrc (S g) e') in
@@ -148,12 +152,12 @@ Proof.
                  (S pos) (wports rest))
        = [(pos, OWin g Done); (pos, OHand (S g) 0); (pos, OUnsub (S g))]
          ++ match mapper (S g) with
-            | Ok _ => (pos, OSub (S (S g))) :: ww_walk true (S g) (S pos) rest
-            | Raise z => (pos, OEmit (Err z)) :: ww_walk false (S g) (S pos) rest
+            | Ok _ => (pos, OSub (S (S g))) :: ww_walk (S g) (S pos) rest
+            | Raise z => [(pos, OWin (S g) (Err z)); (pos, OEmit (Err z)); (pos, OUnsub 0%nat)]
             end).
     { intros e' He'.
       assert (Ex : x_step M (WwSt g (S g) (S g) cl) t (ISrc (S g) e')
-                   = (let '(s', c, f) := ww_arm (A:=A) (B:=B) mapper (WwSt (S g) (S (S g)) (S g) cl) in
+                   = (let '(s', c, f) := ww_arm (A:=A) (B:=B) true mapper (WwSt (S g) (S (S g)) (S g) cl) in
                       (s', [CWin g Done; CHand (S g) 0; CUnsub (S g)] ++ c, f))).
       { destruct e' as [x|z|]; [reflexivity|exfalso; exact (He' z eq_refl)|reflexivity]. }
       rewrite Ex. unfold ww_arm. cbn [ww_calls ww_cur ww_next ww_closing].
@@ -166,25 +170,16 @@ Proof.
         { rewrite !mem_cons, mem_nil'. cbn [Nat.eqb orb]. destruct (Nat.eqb_spec g (S g)); [lia|reflexivity]. }
         rewrite Emem, Bool.andb_false_r. cbn [fst snd map app]. do 4 f_equal.
         assert (Er : RState [0%nat; S (S g)] [] true [S g] (map (fun k => (k, Done)) (seq 0 g) ++ [(g, Done)])
-                       (seq 0 (S g) ++ [S g]) false = ww_rstate true (S g)).
+                       (seq 0 (S g) ++ [S g]) false = ww_rstate (S g)).
         { unfold ww_rstate.
           assert (E1 : map (fun k => (k, @Done A)) (seq 0 (S g)) = map (fun k => (k, Done)) (seq 0 g) ++ [(g, Done)])
             by (rewrite seq_S, map_app; reflexivity).
           assert (E2 : seq 0 (S (S g)) = seq 0 (S g) ++ [S g]) by (rewrite (seq_S (S g) 0); reflexivity).
           rewrite E1, E2. reflexivity. }
-        rewrite Er. apply (IH true _ (S g) (S pos)). repeat split.
-      - (* the closing mapper raises: the outer ends, the new window stays open *)
-        unfold end_outer, maybe_release. rs.
-        assert (Emem : mem (S g) [0%nat] = false) by reflexivity.
-        rewrite Emem, Bool.andb_false_r. cbn [fst snd map app]. do 4 f_equal.
-        assert (Er : RState [0%nat] [] false [S g] (map (fun k => (k, Done)) (seq 0 g) ++ [(g, Done)])
-                       (seq 0 (S g) ++ [S g]) false = ww_rstate false (S g)).
-        { unfold ww_rstate.
-          assert (E1 : map (fun k => (k, @Done A)) (seq 0 (S g)) = map (fun k => (k, Done)) (seq 0 g) ++ [(g, Done)])
-            by (rewrite seq_S, map_app; reflexivity).
-          assert (E2 : seq 0 (S (S g)) = seq 0 (S g) ++ [S g]) by (rewrite (seq_S (S g) 0); reflexivity).
-          rewrite E1, E2. reflexivity. }
-        rewrite Er. apply (IH false _ (S g) (S pos)). repeat split. }
+        rewrite Er. apply (IH _ (S g) (S pos)). repeat split.
+      - (* the closing mapper raises: the window just handed gets the error, then the outer; the source is released *)
+        rs. rewrite wterm_fresh_S, count_one. rs. rewrite Nat.eqb_refl. cbn [negb filter]. unfold maybe_release, end_outer. rs. unfold maybe_release. rs. rewrite ?sort_one, ?mem_nil'. rewrite Bool.andb_false_r. cbn [map app andb fst snd].
+        rewrite Edead by reflexivity. reflexivity. }
     destruct e as [x|z|].
     + apply Fire. discriminate.
     + cbn [x_step x_window_when ww_cur]. rs. rewrite wterm_fresh, count_one. rs. rewrite Nat.eqb_refl. cbn [negb].
@@ -194,15 +189,15 @@ Proof.
 Qed.
 
 (* THEOREM: the whole trace, for every interleaving of the ports *)
-Theorem window_when_run (ins : list tin) :
-  fst (run all_imm M (wports ins))
-  = ww_start ++ ww_walk (match mapper 0%nat with Ok _ => true | Raise _ => false end) 0 1 ins.
+Theorem window_when_run (ins : list tin) : fst (run all_imm M (wports ins)) = ww_out ins.
 Proof.
-  rewrite run_unfold. cbn [fst]. unfold ww_start, start_obs, start_state.
+  rewrite run_unfold. cbn [fst]. unfold ww_out, ww_start, start_obs, start_state.
   cbn [x_start x_window_when]. unfold ww_arm. cbn [ww_calls ww_cur ww_next ww_closing].
   destruct (mapper 0%nat) as [u|z]; unfold rstate0; rs; unfold sub_win; rs; cbn [wterm_of]; rewrite mem_cons, mem_nil'; cbn [Nat.eqb orb]; rs.
-  - cbn [map app]. do 3 f_equal. apply (ww_run_from ins true _ 0 1). repeat split.
-  - unfold end_outer, maybe_release. rs. cbn [map app]. do 3 f_equal. apply (ww_run_from ins false _ 0 1). repeat split.
+  - cbn [map app]. do 3 f_equal. apply (ww_run_from ins _ 0 1). repeat split.
+  - cbn [wterm_of]. rewrite count_one. rs. cbn [Nat.eqb negb filter]. unfold end_outer, maybe_release. rs.
+    unfold maybe_release. rs. rewrite sort_one. cbn [map app].
+    rewrite run_from_deaf by reflexivity. reflexivity.
 Qed.
 End WindowWhen.
 
@@ -266,7 +261,7 @@ Proof.
     unfold deliver, x_buffer_when, buffered. cbn [b_inner b_open b_outer_done].
     assert (Ex : forall e', (forall z, e' <> Err z) ->
               x_step (x_window_when (A:=A) (B:=unit) mapper) (WwSt g (S g) (S g) cl) t (ISrc (S g) e')
-              = (let '(s', c0, f) := ww_arm (A:=A) (B:=unit) mapper (WwSt (S g) (S (S g)) (S g) cl) in
+              = (let '(s', c0, f) := ww_arm (A:=A) (B:=unit) true mapper (WwSt (S g) (S (S g)) (S g) cl) in
                  (s', [CWin g Done; CHand (S g) 0; CUnsub (S g)] ++ c0, f))).
     { intros e' He'. destruct e' as [x|z|]; [reflexivity|exfalso; exact (He' z eq_refl)|reflexivity]. }
     assert (Fire : forall e', (forall z, e' <> Err z) ->
@@ -305,10 +300,11 @@ Proof.
             | Raise z => [(pos, OEmit (Err z)); (pos, OUnsub 0%nat)]
             end).
     { intros e' He'. rewrite (Ex e' He'). unfold ww_arm. cbn [ww_calls ww_cur ww_next ww_closing].
-      destruct (mapper (S g)) as [u|z]; cbn [app buf_cmds buf_get buf_del]; rewrite Nat.eqb_refl;
+      destruct (mapper (S g)) as [u|z]; cbn [app buf_cmds buf_get buf_del]; rewrite !Nat.eqb_refl;
+        cbn [app buf_cmds buf_get buf_del]; rewrite ?Nat.eqb_refl;
         cbn [andb orb buf_finish app]; rs;
-        rewrite !mem_cons, mem_nil'; cbn [Nat.eqb orb]; rewrite Nat.eqb_refl; cbn [orb];
-        rewrite !remove_cons'; cbn [Nat.eqb]; rewrite Nat.eqb_refl.
+        rewrite !mem_cons, mem_nil'; cbn [Nat.eqb orb]; rewrite ?Nat.eqb_refl; cbn [orb];
+        rewrite !remove_cons'; cbn [Nat.eqb]; rewrite ?Nat.eqb_refl.
       - rs. assert (Emem : mem (S g) [0%nat; S (S g)] = false).
         { rewrite !mem_cons, mem_nil'. cbn [Nat.eqb orb]. destruct (Nat.eqb_spec g (S g)); [lia|reflexivity]. }
         rewrite Emem, Bool.andb_false_r. cbn [fst snd map app]. do 3 f_equal.
@@ -336,7 +332,7 @@ Theorem buffer_when_run (ins : list tin) : fst (run all_imm MB (wports ins)) = b
 Proof.
   rewrite run_unfold. cbn [fst]. unfold bw_out, start_obs, start_state, x_buffer_when, buffered.
   cbn [x_start x_window_when]. unfold ww_arm. cbn [ww_calls ww_cur ww_next ww_closing].
-  destruct (mapper 0%nat) as [u|z]; cbn [app buf_cmds buf_finish]; unfold rstate0; rs.
+  destruct (mapper 0%nat) as [u|z]; cbn [app buf_cmds buf_get buf_finish Nat.eqb]; unfold rstate0; rs.
   - cbn [map app]. do 2 f_equal. apply (bw_run_from ins _ 0 [] 1). repeat split.
   - unfold end_outer, maybe_release. rs. rewrite sort_one. cbn [map app].
     rewrite run_from_deaf by reflexivity. reflexivity.
@@ -370,54 +366,58 @@ Notation tin := (Z * nat * ev A)%type.
 (* windows partition the source: the elements delivered on windows are, in trace order, a prefix
    of the source's elements (nothing invented, duplicated or reordered; each element goes to ONE
    window), and the window index never decreases along the trace *)
-Lemma ww_walk_partition : forall (ins : list tin) live g pos,
-  (exists rest, src_nexts ins = map snd (routed (ww_walk (B:=B) mapper live g pos ins)) ++ rest)
-  /\ Forall (fun gv => (g <= fst gv)%nat) (routed (ww_walk (B:=B) mapper live g pos ins))
-  /\ StronglySorted (fun p q => (fst p <= fst q)%nat) (routed (ww_walk (B:=B) mapper live g pos ins)).
+Lemma ww_walk_partition : forall (ins : list tin) g pos,
+  (exists rest, src_nexts ins = map snd (routed (ww_walk (B:=B) mapper g pos ins)) ++ rest)
+  /\ Forall (fun gv => (g <= fst gv)%nat) (routed (ww_walk (B:=B) mapper g pos ins))
+  /\ StronglySorted (fun p q => (fst p <= fst q)%nat) (routed (ww_walk (B:=B) mapper g pos ins)).
 Proof.
-  induction ins as [|[[t k] e] rest IH]; intros live g pos.
+  induction ins as [|[[t k] e] rest IH]; intros g pos.
   - cbn. repeat split; [exists []; reflexivity|constructor|constructor].
   - cbn [ww_walk]. destruct k as [|j]; cbn [Nat.eqb].
     + destruct e as [x|z|].
-      * destruct (IH live g (S pos)) as ((r & Hr) & Hf & Hs). cbn [routed flat_map snd app]. fold (routed (ww_walk (B:=B) mapper live g (S pos) rest)).
+      * destruct (IH g (S pos)) as ((r & Hr) & Hf & Hs). cbn [routed flat_map snd app]. fold (routed (ww_walk (B:=B) mapper g (S pos) rest)).
         repeat split.
         -- exists r. cbn [src_nexts flat_map app map snd]. fold (src_nexts rest). now rewrite Hr.
         -- constructor; [cbn; lia|exact Hf].
         -- constructor; [exact Hs|]. eapply Forall_impl; [|exact Hf]. cbn. auto.
-      * repeat split; [exists (src_nexts rest); destruct live; reflexivity|destruct live; constructor|destruct live; constructor].
-      * repeat split; [exists (src_nexts rest); destruct live; reflexivity|destruct live; constructor|destruct live; constructor].
-    + assert (Skip : forall lv, (exists r, src_nexts ((t, S j, e) :: rest) = map snd (routed (ww_walk (B:=B) mapper lv g (S pos) rest)) ++ r)
-                /\ Forall (fun gv => (g <= fst gv)%nat) (routed (ww_walk (B:=B) mapper lv g (S pos) rest))
-                /\ StronglySorted (fun p q => (fst p <= fst q)%nat) (routed (ww_walk (B:=B) mapper lv g (S pos) rest))).
-      { intros lv. destruct (IH lv g (S pos)) as ((r & Hr) & Hf & Hs). repeat split; [exists r; exact Hr|exact Hf|exact Hs]. }
-      destruct (live && Nat.eqb j g) eqn:Ek; [|apply Skip].
-      assert (Fire : forall lv, (exists r, src_nexts ((t, S j, e) :: rest) = map snd (routed (ww_walk (B:=B) mapper lv (S g) (S pos) rest)) ++ r)
-                /\ Forall (fun gv => (g <= fst gv)%nat) (routed (ww_walk (B:=B) mapper lv (S g) (S pos) rest))
-                /\ StronglySorted (fun p q => (fst p <= fst q)%nat) (routed (ww_walk (B:=B) mapper lv (S g) (S pos) rest))).
-      { intros lv. destruct (IH lv (S g) (S pos)) as ((r & Hr) & Hf & Hs). repeat split; [exists r; exact Hr| |exact Hs].
-        eapply Forall_impl; [|exact Hf]. cbn. intros; lia. }
-      destruct e as [x|z|].
-      * rewrite routed_app. cbn [routed flat_map snd app]. destruct (mapper (S g)); cbn [routed flat_map snd app]; apply Fire.
       * repeat split; [exists (src_nexts rest); reflexivity|constructor|constructor].
-      * rewrite routed_app. cbn [routed flat_map snd app]. destruct (mapper (S g)); cbn [routed flat_map snd app]; apply Fire.
+      * repeat split; [exists (src_nexts rest); reflexivity|constructor|constructor].
+    + destruct (Nat.eqb j g) eqn:Ek.
+      2: { destruct (IH g (S pos)) as ((r & Hr) & Hf & Hs). repeat split; [exists r; exact Hr|exact Hf|exact Hs]. }
+      assert (Fire : (exists r, src_nexts ((t, S j, e) :: rest) = map snd (routed (ww_walk (B:=B) mapper (S g) (S pos) rest)) ++ r)
+                /\ Forall (fun gv => (g <= fst gv)%nat) (routed (ww_walk (B:=B) mapper (S g) (S pos) rest))
+                /\ StronglySorted (fun p q => (fst p <= fst q)%nat) (routed (ww_walk (B:=B) mapper (S g) (S pos) rest))).
+      { destruct (IH (S g) (S pos)) as ((r & Hr) & Hf & Hs). repeat split; [exists r; exact Hr| |exact Hs].
+        eapply Forall_impl; [|exact Hf]. cbn. intros; lia. }
+      assert (Stop : (exists r, src_nexts ((t, S j, e) :: rest) = map snd (@nil (nat * A)) ++ r)
+                /\ Forall (fun gv : nat * A => (g <= fst gv)%nat) []
+                /\ StronglySorted (fun p q : nat * A => (fst p <= fst q)%nat) []).
+      { repeat split; [exists (src_nexts rest); reflexivity|constructor|constructor]. }
+      destruct e as [x|z|].
+      * rewrite routed_app. cbn [routed flat_map snd app]. destruct (mapper (S g)); cbn [routed flat_map snd app]; [apply Fire|apply Stop].
+      * apply Stop.
+      * rewrite routed_app. cbn [routed flat_map snd app]. destruct (mapper (S g)); cbn [routed flat_map snd app]; [apply Fire|apply Stop].
 Qed.
 
-(* nothing is lost while nothing fails and the source has not completed *)
-Lemma ww_walk_no_loss : forall (ins : list tin) live g pos, no_err ins -> src_open ins ->
-  map snd (routed (ww_walk (B:=B) mapper live g pos ins)) = src_nexts ins.
+(* nothing is lost while nothing fails (no error notification, no raising mapper call) and the
+   source has not completed *)
+Lemma ww_walk_no_loss (Htot : forall j, exists u, mapper j = Ok u) : forall (ins : list tin) g pos,
+  no_err ins -> src_open ins ->
+  map snd (routed (ww_walk (B:=B) mapper g pos ins)) = src_nexts ins.
 Proof.
-  induction ins as [|[[t k] e] rest IH]; intros live g pos Hne Hso; [reflexivity|].
+  induction ins as [|[[t k] e] rest IH]; intros g pos Hne Hso; [reflexivity|].
   pose proof (no_err_tail _ _ Hne) as Hne'. pose proof (src_open_tail _ _ Hso) as Hso'.
   cbn [ww_walk]. destruct k as [|j]; cbn [Nat.eqb].
   - destruct e as [x|z|].
-    + cbn [routed flat_map snd app map src_nexts]. fold (routed (ww_walk (B:=B) mapper live g (S pos) rest)). fold (src_nexts rest).
+    + cbn [routed flat_map snd app map src_nexts]. fold (routed (ww_walk (B:=B) mapper g (S pos) rest)). fold (src_nexts rest).
       f_equal. apply IH; assumption.
     + exfalso. apply (Hne t 0%nat z). left. reflexivity.
     + exfalso. apply (Hso t). left. reflexivity.
   - change (src_nexts ((t, S j, e) :: rest)) with (src_nexts rest).
-    destruct (live && Nat.eqb j g); [|apply IH; assumption].
+    destruct (Nat.eqb j g); [|apply IH; assumption].
+    destruct (Htot (S g)) as [u Hu].
     destruct e as [x|z|]; [| exfalso; apply (Hne t (S j) z); left; reflexivity |];
-      rewrite routed_app; cbn [routed flat_map snd app]; destruct (mapper (S g));
+      rewrite routed_app; cbn [routed flat_map snd app]; rewrite Hu;
       cbn [routed flat_map snd app]; apply IH; assumption.
 Qed.
 
@@ -429,16 +429,43 @@ Theorem window_when_partition (ins : list tin) :
   (exists rest, src_nexts ins = map snd (routed tr) ++ rest)
   /\ StronglySorted (fun p q => (fst p <= fst q)%nat) (routed tr).
 Proof.
-  cbn zeta. rewrite window_when_run, routed_app, routed_ww_start. cbn [app].
-  destruct (ww_walk_partition ins (match mapper 0%nat with Ok _ => true | Raise _ => false end) 0 1) as (H1 & _ & H3).
-  split; assumption.
+  cbn zeta. rewrite window_when_run. unfold ww_out. rewrite routed_app, routed_ww_start. cbn [app].
+  destruct (mapper 0%nat).
+  - destruct (ww_walk_partition ins 0 1) as (H1 & _ & H3). split; assumption.
+  - split; [exists (src_nexts ins); reflexivity|constructor].
 Qed.
 
-Theorem window_when_no_loss (ins : list tin) : no_err ins -> src_open ins ->
+(* nothing is lost while nothing fails -- no error notification on any port, no raising call of the
+   closing mapper (such a call ends the current window, the outer sequence and the subscription to
+   the source: [window_when_raise_stops] below) -- and the source has not completed *)
+Theorem window_when_no_loss (ins : list tin) : (forall j, exists u, mapper j = Ok u) ->
+  no_err ins -> src_open ins ->
   map snd (routed (fst (run all_imm (x_window_when (A:=A) (B:=B) mapper) (wports ins)))) = src_nexts ins.
 Proof.
-  intros Hne Hso. rewrite window_when_run, routed_app, routed_ww_start. cbn [app].
-  apply ww_walk_no_loss; assumption.
+  intros Htot Hne Hso. rewrite window_when_run. unfold ww_out. rewrite routed_app, routed_ww_start. cbn [app].
+  destruct (Htot 0%nat) as [u ->]. apply ww_walk_no_loss; assumption.
+Qed.
+
+(* a raising call of the closing mapper is the END.  At the first call (inside subscribe()): window 0,
+   already handed, gets the error, then the outer; the source, already subscribed, is released;
+   nothing that comes later on any port is observed *)
+Theorem window_when_first_call_raises (ins : list tin) z : mapper 0%nat = Raise z ->
+  fst (run all_imm (x_window_when (A:=A) (B:=B) mapper) (wports ins))
+  = [(0%nat, OHand 0%nat 0); (0%nat, OSub 0%nat); (0%nat, OWin 0%nat (Err z)); (0%nat, OEmit (Err z));
+     (0%nat, OUnsub 0%nat)].
+Proof. intros H. rewrite window_when_run. unfold ww_out, ww_start. rewrite H. reflexivity. Qed.
+
+(* ... at a later call: when the closing observable of the current window g fires and call g+1 of the
+   mapper raises z, window g completes, window g+1 is handed and gets the error z, then the outer;
+   the source is released and the rest of the inputs is not observed *)
+Theorem window_when_raise_stops g pos t (e : ev A) (rest : list tin) z :
+  (forall z', e <> Err z') -> mapper (S g) = Raise z ->
+  ww_walk (B:=B) mapper g pos ((t, S g, e) :: rest)
+  = [(pos, OWin g Done); (pos, OHand (S g) 0); (pos, OUnsub (S g));
+     (pos, OWin (S g) (Err z)); (pos, OEmit (Err z)); (pos, OUnsub 0%nat)].
+Proof.
+  intros He H. cbn [ww_walk Nat.eqb]. rewrite Nat.eqb_refl, H.
+  destruct e as [x|z'|]; [reflexivity|exfalso; exact (He z' eq_refl)|reflexivity].
 Qed.
 
 (* buffers partition the source: while nothing fails, the buffers emitted up to and at the
